@@ -13,6 +13,9 @@ inductive Prog where
   | block (ignore rel : Bool) (t : Int) (body : Prog)
   | tryCatch (body : Prog) (catches : List Exc) (handler : Prog)
   | raise (e : Exc)
+  /-- `async with TaskGroup(wait=all|any) as g:` with members `(dur, react)` spawned on entry:
+      a member sleeps `dur`; once cancelled it needs `react` more before it is dead -/
+  | group (anyp : Bool) (members : List (Nat × Nat)) (body : Prog)
   deriving Repr
 
 structure TS where
@@ -31,6 +34,8 @@ def minL : List Int → Option Int
 
 inductive Ev where
   | exit (deadline : Int) (res : Option Exc) (expired : Bool) (at_ : Int)
+  /-- a task group was left: what left it, how many members were still running, when -/
+  | gexit (res : Option Exc) (left : Nat) (at_ : Int)
   deriving Repr, DecidableEq
 
 /-- result: none = completed normally -/
@@ -90,6 +95,54 @@ def aexit (fixed ignore : Bool) (self : Int) (r : Res) (s : TS) : Res × Bool ×
   else if r == some .tce then (r, false, s')
   else (some .tce, false, s')
 
+/-! ### Task groups (the join / cancel semantics proved in C09, abstracted)
+
+A group entered at `T` has members finishing by themselves at `T + dur`.  Leaving the group:
+* body ended normally: `join()` - wait = all: one suspension until the last member has finished
+  (none if all have); wait = any: until the first one has (none if one already has), then the
+  others are swept; interrupted while waiting (deadline / external cancel) it *sweeps*;
+* body raised (a cancellation included): `cancel_remaining()` sweeps at once, then `join()` finds
+  everybody finished;
+* a sweep cancels every member still running and awaits them: one suspension as long as the
+  slowest reaction (none if nobody is running); the exception in flight then continues.  A sweep
+  that is itself interrupted gives up: the new cancellation replaces what was in flight and the
+  members not yet dead are left running (defect F11, mirrored as is). -/
+
+def maxNat : List Nat → Nat
+  | [] => 0
+  | x :: xs => if maxNat xs < x then x else maxNat xs
+
+def minNat : List Nat → Nat
+  | [] => 0
+  | [x] => x
+  | x :: y :: ys => if x < minNat (y :: ys) then x else minNat (y :: ys)
+
+/-- members (spawned at `T`) that have not finished by themselves at `now` -/
+def runningAt (T : Int) (ms : List (Nat × Nat)) (now : Int) : List (Nat × Nat) :=
+  ms.filter (fun m => now < T + m.1)
+
+/-- cancel and await `R` (the members still running) while `r` is in flight -/
+def sweep (R : List (Nat × Nat)) (r : Res) (s : TS) : Res × TS × Nat :=
+  if R.isEmpty then (r, s, 0)
+  else
+    match doSleep s (maxNat (R.map (·.2))) with
+    | (none, s') => (r, s', 0)
+    | (some e, s') => (some e, s', (R.filter (fun m => s'.now < s.now + m.2)).length)
+
+/-- leaving a group entered at `T`: returns (what leaves it, state, members left running) -/
+def gexit (anyp : Bool) (T : Int) (ms : List (Nat × Nat)) (r : Res) (s : TS) : Res × TS × Nat :=
+  match r with
+  | some e => sweep (runningAt T ms s.now) (some e) s
+  | none =>
+    if (runningAt T ms s.now).isEmpty then (none, s, 0)
+    else if anyp && decide ((runningAt T ms s.now).length < ms.length) then
+      -- wait = any and somebody has finished already: stop the others at once
+      sweep (runningAt T ms s.now) none s
+    else
+      match doSleep s (T + (if anyp then minNat (ms.map (·.1)) else maxNat (ms.map (·.1))) - s.now).toNat with
+      | (none, s') => if anyp then sweep (runningAt T ms s'.now) none s' else (none, s', 0)
+      | (some e, s') => sweep (runningAt T ms s'.now) (some e) s'
+
 def run (fixed : Bool) : Prog → TS → Res × TS × List Ev
   | .skip, s => (none, s, [])
   | .sleep d, s => let (r, s') := doSleep s d; (r, s', [])
@@ -112,6 +165,10 @@ def run (fixed : Bool) : Prog → TS → Res × TS × List Ev
       let (r, s1, e1) := run fixed body s0
       let (r', expired, s2) := aexit fixed ig d r s1
       (r', s2, e1 ++ [Ev.exit d r' expired s2.now])
+  | .group anyp ms body, s =>
+      let (r, s1, e1) := run fixed body s
+      let (r', s2, left) := gexit anyp s.now ms r s1
+      (r', s2, e1 ++ [Ev.gexit r' left s2.now])
 
 -- F13 witness
 def f13 : Prog :=
